@@ -98,6 +98,42 @@ def _shapes():
             import shutil
             shutil.rmtree(d, ignore_errors=True)
 
+    def ins_all_html(x):
+        # a child list that held only HTML() nodes until now
+        t = tags.div(H.HTML("<hr>"), H.HTML("<br>"))
+        t.get_html_string()
+        t.insert(1, x)
+        return t.get_html_string()
+
+    def ins_all_html_nested(x):
+        t = tags.section(tags.p(H.HTML("<i>k</i>")))
+        str(t)
+        t.children[0].children.insert(0, x)
+        t.children[0].append(H.HTML("<b>z</b>"))
+        return str(t)
+
+    def iadd_alias(x):
+        # += extends in place: through a second name for the tag's child list
+        t = tags.div("a")
+        kids = t.children
+        kids += [tags.b(), x]
+        return t.get_html_string()
+
+    def iadd_helper(x):
+        def add(children):
+            children += [x]
+        t = tags.ul(tags.li("k"))
+        add(t.children)
+        t.append("tail")
+        return str(t)
+
+    def rerender_after_add(x):
+        t = tags.div(tags.span("k"))
+        t.get_html_string()
+        str(t)
+        t.append(x)
+        return t.get_html_string()
+
     def ap_after_html(x):
         t = tags.div(H.HTML("<hr/>"))
         t.append(x)
@@ -139,6 +175,8 @@ def _shapes():
         "script_grandchild": lambda x: tags.script(tags.div(x), type="text/template").get_html_string(),
         "style_grandchild": lambda x: tags.div(tags.style("a{}", tags.span("k", x))).get_html_string(),
         "renamed_from_script": renamed, "renamed_then_append": renamed_late, "saved_file": saved,
+        "insert_into_all_html": ins_all_html, "insert_into_all_html_nested": ins_all_html_nested,
+        "iadd_alias": iadd_alias, "iadd_helper": iadd_helper, "rerender_after_add": rerender_after_add,
         "append_after_html": ap_after_html, "extend_after_html": ext_after_html, "iadd_after_html": iadd_after_html,
         "insert_between_html": ins_after_html,
         "extend_iter": ext_iter, "extend_gen": ext_gen, "iadd_gen": iadd_gen, "list_extend_map": lext_map,
@@ -483,7 +521,7 @@ class C04(Prop):
             for way in ("kw", "dict", "setitem", "update", "second_attr", "class_then_add", "class_then_add_pre", "style_then_add",
                         "class_then_remove", "cons"):
                 gens.append({"kind": "html_attr", "s": cps(p), "way": way})
-            for way in ("doc", "textdoc", "as_html_tags"):
+            for way in ("doc", "textdoc", "as_html_tags", "textdoc_json", "textdoc_jsonmode"):
                 gens.append({"kind": "dep_head", "s": cps(p), "way": way})
         for p in gamma.LONG_HOSTILE:
             for nm in ("only_block", "only_inline", "second_after_inline", "after_block", "taglist_only"):
@@ -628,6 +666,20 @@ class C04(Prop):
                     return H.HTMLDocument(H.tags.div("c", d)).render()["html"]
                 if way == "textdoc":
                     return H.HTMLTextDocument("<html><head>" + PHX + "</head><body>b</body></html>", deps=[d],
+                                              deps_replace_pattern=PHX).render()["html"]
+                if way == "textdoc_json":
+                    # serialised into the text, then collected again by HTMLTextDocument
+                    body = d.serialize_to_script_json().get_html_string()
+                    return H.HTMLTextDocument("<html><head>" + PHX + "</head><body>" + body + "</body></html>",
+                                              deps_replace_pattern=PHX).render()["html"]
+                if way == "textdoc_jsonmode":
+                    old = H.html_dependency_render_mode
+                    try:
+                        H.html_dependency_render_mode = "json"
+                        body = str(H.tags.div("c", d))
+                    finally:
+                        H.html_dependency_render_mode = old
+                    return H.HTMLTextDocument("<html><head>" + PHX + "</head><body>" + body + "</body></html>",
                                               deps_replace_pattern=PHX).render()["html"]
                 return d.as_html_tags().get_html_string()
             try:
